@@ -270,7 +270,7 @@ def rule_Z5(ctx: Ctx) -> None:
     call = [c for c in X.calls(g.node) if dotted_of(c.func) == "process_maze_rasterized_input_target"]
     ok = len(call) == 1 and all(X.U(N.kwarg(call[0], k)) == f"self.cfg.{k}" for k in ("remove_isolated_cells", "extend_pixels", "endpoints_as_open"))
     mz = N.kwarg(call[0], "maze") if call else None
-    md = X.assignments_to(g.node, X.U(mz)) if mz is not None and isinstance(mz, ast.Name) else []
+    md = X.assignments_to(g.node, X.U(mz)) if mz is not None and isinstance(mz, ast.Name) else ([mz] if mz is not None else [])   # through a local, or written in place
     ok = ok and len(md) == 1 and X.U(md[0]) == f"self.mazes[{g.params()[1]}]"
     ctx.judge(g, ok, {"call": X.U(call[0])[:200] if call else None}, "item i rasterizes self.mazes[i] with the three options taken from the config, each by its own name",
               "an option is crossed with another one / another maze is rendered")
